@@ -7,6 +7,7 @@ kind:  "complete"        loop-free / fixed-trip-count harness over full-domain s
 
 OBLIGATIONS = []
 CANARIES = {}
+PROPERTIES = {}
 
 
 def K(id, props, crate, anchor, module, harness, kind, fns, contract="", tier="quick", timeout=300,
@@ -92,9 +93,3 @@ import glob as _glob, os as _os
 for _f in sorted(_glob.glob(_os.path.join(_os.path.dirname(_os.path.abspath(__file__)), "registry.d", "*.py"))):
     exec(compile(open(_f).read(), _f, "exec"))
 
-# ------------------------------------------------------------------------------------------------
-# Per-property descriptions used in evidence
-# ------------------------------------------------------------------------------------------------
-PROPERTIES = {}
-for _p in ["C01", "C02", "C03", "C04", "C05", "C06", "C08", "C09", "C10", "C11", "C12", "C13", "C14", "C15", "C17", "C18"]:
-    PROPERTIES[_p] = {"level": "proof", "explanation": "", "unverified": []}
